@@ -71,7 +71,8 @@ Init ==
 \* happen before accept (Pre) or once the runner reports running
 AdoptCall(p) ==
     /\ pst[p] = "new"
-    /\ IF p \in Pre THEN phase[1] = "idle" ELSE phase[1] \in {"running", "closing", "closed"}
+    \* (adopt after the run has ended queues the payload for a next start: it stays submitted)
+    /\ IF p \in Pre THEN phase[1] = "idle" ELSE phase[1] \in {"running", "closing", "closed", "ended"}
     /\ pst' = [pst EXCEPT ![p] = "submitting"]
     /\ UNCHANGED <<phase, guard, starts, endhow, cleanleft, adoptret, sigint, shut, result, xst, h>>
 
@@ -164,7 +165,11 @@ ShutdownRet == /\ shut \in {"called", "returned"}
 
 \* ---------------------------------------------------------------- payloads
 Start(p) ==
-    /\ pst[p] \in {"submitting", "submitted"} /\ phase[1] \in {"running", "closing", "closed"}
+    /\ pst[p] \in {"submitting", "submitted"}
+    \* (a thread payload handed over while the runtime closes is an unmanaged thread: it may
+    \*  take its first step after accept() has ended)
+    /\ \/ phase[1] \in {"running", "closing", "closed"}
+       \/ ~Coroutine(p) /\ phase[1] = "ended" /\ p \notin Pre /\ Triggered
     /\ pst' = [pst EXCEPT ![p] = "running"]
     /\ starts' = [starts EXCEPT ![p] = @ + 1]
     /\ UNCHANGED <<phase, guard, endhow, cleanleft, adoptret, sigint, shut, result, xst, h>>
